@@ -133,6 +133,59 @@ impl Case<'_> {
     }
 }
 
+/// Per-worker "library call in progress since" timestamps (ms since start, 0 = idle) for the
+/// hang watchdog, plus the case each worker is running.
+static CALL_START: [AtomicU64; 128] = [const { AtomicU64::new(0) }; 128];
+static CASE_IDS: Mutex<Vec<(String, u64)>> = Mutex::new(Vec::new());
+static NEXT_SLOT: AtomicU64 = AtomicU64::new(0);
+static EPOCH: std::sync::OnceLock<Instant> = std::sync::OnceLock::new();
+
+fn now_ms() -> u64 {
+    EPOCH.get_or_init(Instant::now).elapsed().as_millis() as u64 + 1
+}
+
+thread_local! {
+    static SLOT: usize = (NEXT_SLOT.fetch_add(1, Ordering::Relaxed) as usize) % 128;
+}
+
+fn set_case(workload: &str, index: u64) {
+    let slot = SLOT.with(|s| *s);
+    let mut g = CASE_IDS.lock().unwrap();
+    if g.len() <= slot {
+        g.resize(slot + 1, (String::new(), 0));
+    }
+    g[slot] = (workload.to_string(), index);
+}
+
+/// Starts a thread that reports a single library call running longer than `limit_s` seconds as a
+/// hang (seven orders of magnitude above the normal cost of a call) and ends the process.
+pub fn start_hang_watchdog(prop: &'static str, seed: u64, out_dir: PathBuf, limit_s: u64) {
+    std::thread::spawn(move || loop {
+        std::thread::sleep(std::time::Duration::from_millis(500));
+        let now = now_ms();
+        for (slot, a) in CALL_START.iter().enumerate() {
+            let t = a.load(Ordering::Relaxed);
+            if t != 0 && now.saturating_sub(t) > limit_s * 1000 {
+                let (w, i) = CASE_IDS.lock().unwrap().get(slot).cloned().unwrap_or_default();
+                let rdir = out_dir.join("replay");
+                let _ = std::fs::create_dir_all(&rdir);
+                let path = rdir.join(format!("{prop}-seed{seed}-hang.json"));
+                let j = Json::obj()
+                    .with("property_id", prop)
+                    .with("seed", seed)
+                    .with("tier", "quick")
+                    .with("workload", w)
+                    .with("index", i)
+                    .with("signature", "hang")
+                    .with("detail", Json::obj().with("problem", format!("a single library call has been running for more than {limit_s} s")));
+                let _ = std::fs::write(&path, j.render() + "\n");
+                println!("RAWVIOLATION\t{prop}\thang\t{}", path.display());
+                std::process::exit(0);
+            }
+        }
+    });
+}
+
 thread_local! {
     static LAST_PANIC: RefCell<Option<String>> = const { RefCell::new(None) };
     static QUIET_PANICS: RefCell<bool> = const { RefCell::new(true) };
@@ -164,7 +217,11 @@ pub fn take_panic() -> String {
 
 /// Runs `f`, converting a panic into `Err(description)`.
 pub fn guarded<T>(f: impl FnOnce() -> T) -> Result<T, String> {
-    match catch_unwind(AssertUnwindSafe(f)) {
+    let slot = SLOT.with(|s| *s);
+    CALL_START[slot].store(now_ms(), Ordering::Relaxed);
+    let r = catch_unwind(AssertUnwindSafe(f));
+    CALL_START[slot].store(0, Ordering::Relaxed);
+    match r {
         Ok(v) => Ok(v),
         Err(_) => Err(take_panic()),
     }
@@ -297,6 +354,7 @@ impl Ctx {
         let seed = if seeded { self.seed } else { 0x5eed_f1ed };
         let run_one = |idx: u64, l: &mut Local| {
             let rng = Rng::for_case(seed, workload, idx);
+            set_case(workload, idx);
             l.evaluations += 1;
             let mut case = Case { ctx: self, workload, index: idx, rng, l };
             let r = catch_unwind(AssertUnwindSafe(|| f(&mut case)));
